@@ -551,7 +551,7 @@ func TestScoutHugeDeclaredBodyLengthKillsProcess(t *testing.T) {
 	}
 }
 
-// TestVerifReplay: the reproducers of the repaired defect (a result column whose offsets run backwards panicked in ReadUnaryResult) and the scout's passing round-trip sweeps; TestScoutReadRequestAcceptsCorruptTrailingMessage and TestScoutHugeDeclaredBodyLengthKillsProcess reproduce findings that are not repaired and are not run
+// TestVerifReplay: the reproducers of the repaired defect (a result column whose offsets run backwards panicked in ReadUnaryResult) and the scout's passing round-trip sweeps; TestScoutHugeDeclaredBodyLengthKillsProcess reproduces a finding that is not repaired and is not run
 func TestVerifReplay(t *testing.T) {
 	t.Run("TestScoutReadUnaryResultPanicsOnDecreasingOffsets", TestScoutReadUnaryResultPanicsOnDecreasingOffsets)
 	t.Run("TestScoutReadUnaryResultPanicsOnNegativeOffset", TestScoutReadUnaryResultPanicsOnNegativeOffset)
@@ -563,4 +563,5 @@ func TestVerifReplay(t *testing.T) {
 	t.Run("TestScoutProbeTokens", TestScoutProbeTokens)
 	t.Run("TestScoutProbeUnarySweep", TestScoutProbeUnarySweep)
 	t.Run("TestScoutProbeMutationNoPanic", TestScoutProbeMutationNoPanic)
+	t.Run("TestScoutReadRequestAcceptsCorruptTrailingMessage", TestScoutReadRequestAcceptsCorruptTrailingMessage)
 }
